@@ -2,6 +2,7 @@ package main
 
 import (
 	"fmt"
+	"iter"
 	"slices"
 	"strconv"
 	"strings"
@@ -28,14 +29,14 @@ type parkedTask struct {
 
 // dkvSched drives the background flush/compaction tasks and two-phase reads of one real DB step by step.
 type dkvSched struct {
-	db      *dkv.DB
-	mu      sync.Mutex
-	parked  map[string]*parkedTask // by kind: "flush", "compact", "read"
-	events  chan string            // flush.done, compact.done, compact.idle
-	free    bool                   // cleanup mode: nothing parks any more
+	db       *dkv.DB
+	mu       sync.Mutex
+	parked   map[string]*parkedTask // by kind: "flush", "compact", "read"
+	events   chan string            // flush.done, compact.done, compact.idle
+	free     bool                   // cleanup mode: nothing parks any more
 	holdRead bool
-	ids     map[*sst.Table]int
-	nextID  int
+	ids      map[*sst.Table]int
+	nextID   int
 }
 
 func kindOf(label string) string {
@@ -150,13 +151,18 @@ func showEntry(e kv.Entry, err error) string {
 }
 
 func showScanEntries(db *dkv.DB, prefix []byte) string {
-	var scanErr error
+	scanErr := new(error)
+	return showScanIter(db.ScanPrefix(prefix, scanErr), scanErr)
+}
+
+// showScanIter consumes a ScanPrefix iterator (now) and renders what it yields.
+func showScanIter(it iter.Seq[kv.Entry], scanErr *error) string {
 	var parts []string
-	for e := range db.ScanPrefix(prefix, &scanErr) {
+	for e := range it {
 		parts = append(parts, lib.Hex(e.Key())+":"+lib.Hex(e.Value()))
 	}
-	if scanErr != nil {
-		return "err " + strings.ReplaceAll(scanErr.Error(), " ", "_")
+	if *scanErr != nil {
+		return "err " + strings.ReplaceAll((*scanErr).Error(), " ", "_")
 	}
 	if len(parts) == 0 {
 		return "empty"
@@ -243,14 +249,47 @@ func runDkvTrace(c lib.Case) []string {
 
 	flushQ, compactQ := 0, 0 // tasks enqueued and not finished
 	var readRes chan string
+	// a ScanPrefix iterator obtained by `scanget` and not yet consumed (`scanrun`); dropped unconsumed at the end of
+	// the trace (it is a lazy iter.Seq: nothing runs, nothing is held by it but memory)
+	var heldIter iter.Seq[kv.Entry]
+	var heldErr *error
 	out := make([]string, 0, len(c.Ops))
 	for _, op := range c.Ops {
 		f := strings.Fields(op)
-		if readRes != nil && f[0] != "bg" && f[0] != "resume" {
+		// one goroutine does the reads and the writes: while a read is parked between its phases or an iterator is
+		// held unconsumed, no other foreground operation happens
+		if (readRes != nil || heldIter != nil) && f[0] != "bg" && f[0] != "resume" && f[0] != "scanrun" {
 			out = append(out, "reader-busy")
 			continue
 		}
 		switch f[0] {
+		case "scanget":
+			// the call returns (it does not park between its phases: holdRead is off); the sequence is consumed later
+			heldErr = new(error)
+			heldIter = db.ScanPrefix(lib.UnHex(f[1]), heldErr)
+			out = append(out, "held")
+		case "scanrun":
+			if heldIter == nil {
+				out = append(out, "no-iter")
+				continue
+			}
+			it, ep := heldIter, heldErr
+			heldIter, heldErr = nil, nil
+			res := make(chan string, 1)
+			go func() {
+				defer func() {
+					if r := recover(); r != nil {
+						res <- "panic " + strings.ReplaceAll(fmt.Sprint(r), " ", "_")
+					}
+				}()
+				res <- showScanIter(it, ep)
+			}()
+			select {
+			case r := <-res:
+				out = append(out, r)
+			case <-time.After(schedGrace):
+				out = append(out, "timeout")
+			}
 		case "put", "del":
 			if flushQ >= 4 {
 				// bg.TaskQueue holds 5 tasks: a further rotation would block the writer until a flush finishes
@@ -500,43 +539,114 @@ func c07Val(r *lib.Rng) []byte {
 	}
 }
 
+// ---- "readall": a read of every written key after every background step ----
+//
+// In a readall case the generator follows every background step (`bg f`, `bg c`) and every `resume` by a full
+// observation: `scan -` and `get k` for every key of the case's key universe. It is a pure expansion into the
+// existing ops (the driver and the real-code runner know nothing about it). While a read is parked (between
+// `getpark`/`scanpark` and `resume`) the runner and the driver both answer `reader-busy` to foreground reads (one
+// reader goroutine), so inside that window nothing is emitted; the observation follows the `resume`.
+
+// c07ReadAllCap bounds the key universe of one readall observation; a larger universe is sampled.
+const c07ReadAllCap = 24
+
+// c07ReadAll appends the full observation over the universe `uni` (sampled from r, order kept, if it is larger
+// than the cap).
+func c07ReadAll(r *lib.Rng, ops []string, uni [][]byte) []string {
+	ops = append(ops, "scan -")
+	if len(uni) > c07ReadAllCap {
+		// deterministic sample without replacement: partial Fisher-Yates over the indices, then back in order
+		idx := make([]int, len(uni))
+		for i := range idx {
+			idx[i] = i
+		}
+		for i := 0; i < c07ReadAllCap; i++ {
+			j := i + r.Intn(len(idx)-i)
+			idx[i], idx[j] = idx[j], idx[i]
+		}
+		pick := slices.Clone(idx[:c07ReadAllCap])
+		slices.Sort(pick)
+		for _, i := range pick {
+			ops = append(ops, "get "+lib.Hex(uni[i]))
+		}
+		return ops
+	}
+	for _, k := range uni {
+		ops = append(ops, "get "+lib.Hex(k))
+	}
+	return ops
+}
+
+func c07IsBg(op string) bool { return op == "bg f" || op == "bg c" }
+
 // genDkvRanged: a larger ordered key space loaded mostly in ascending order, then overwrites/deletes inside a
 // narrow moving window, with background steps following closely: multi-table deeper levels whose key ranges are
 // only partly touched by the next level-0 tables.
-func genDkvRanged(r *lib.Rng, n int) []string {
+// readAll: every background step is followed by the full observation of the keys written so far (n counts the
+// generated steps, not the lines of the observations).
+func genDkvRanged(r *lib.Rng, n int, readAll bool) []string {
 	var ops []string
 	nkeys := r.Range(24, 60)
+	if readAll {
+		nkeys = r.Range(8, 30)
+	}
 	key := func(i int) []byte { return []byte{0x40 + byte(i/8), byte(0x30 + i%8)} }
 	val := func() []byte { return r.Bytes(r.Range(12, 40)) }
+	var written [][]byte // in readall cases: the keys written so far (all of them are loaded in ascending order)
+	steps := 0
+	add := func(op string) {
+		ops = append(ops, op)
+		steps++
+		if readAll && c07IsBg(op) {
+			ops = c07ReadAll(r, ops, written)
+		}
+	}
 	bg := func() {
 		for i := r.Range(1, 5); i > 0; i-- {
-			ops = append(ops, lib.Pick(r, []string{"bg f", "bg f", "bg c", "bg c", "bg c"}))
+			add(lib.Pick(r, []string{"bg f", "bg f", "bg c", "bg c", "bg c"}))
 		}
 	}
 	for i := 0; i < nkeys; i++ {
-		ops = append(ops, fmt.Sprintf("put %s %s", lib.Hex(key(i)), lib.Hex(val())))
+		add(fmt.Sprintf("put %s %s", lib.Hex(key(i)), lib.Hex(val())))
+		written = append(written, key(i))
 		if r.Chance(1, 2) {
 			bg()
 		}
 	}
 	for i := 0; i < 12; i++ {
-		ops = append(ops, lib.Pick(r, []string{"bg f", "bg c", "bg c"}))
+		add(lib.Pick(r, []string{"bg f", "bg c", "bg c"}))
 	}
 	w := r.Intn(nkeys)
-	for len(ops) < n+nkeys {
+	for steps < n+nkeys {
 		if r.Chance(1, 12) {
 			w = r.Intn(nkeys)
 		}
 		k := key((w + r.Intn(4)) % nkeys)
 		switch x := r.Intn(100); {
 		case x < 50:
-			ops = append(ops, fmt.Sprintf("put %s %s", lib.Hex(k), lib.Hex(val())))
+			add(fmt.Sprintf("put %s %s", lib.Hex(k), lib.Hex(val())))
 		case x < 58:
-			ops = append(ops, "del "+lib.Hex(k))
+			add("del " + lib.Hex(k))
 		case x < 75:
-			ops = append(ops, "get "+lib.Hex(key(r.Intn(nkeys))))
-		case x < 80:
-			ops = append(ops, "scan "+lib.Hex(key(r.Intn(nkeys))[:1]))
+			add("get " + lib.Hex(key(r.Intn(nkeys))))
+		case x < 78:
+			add("scan " + lib.Hex(key(r.Intn(nkeys))[:1]))
+		case x < 81:
+			// iterator obtained, background steps, then consumed (no foreground operation and no observation inside)
+			p := key(r.Intn(nkeys))[:1]
+			if r.Chance(1, 3) {
+				p = nil
+			}
+			ops = append(ops, "scanget "+lib.Hex(p))
+			for i := r.Intn(5); i > 0; i-- {
+				ops = append(ops, lib.Pick(r, []string{"bg f", "bg c"}))
+				steps++
+			}
+			ops = append(ops, "scanrun")
+			steps += 2
+			if readAll {
+				ops = c07ReadAll(r, ops, written)
+			}
 		default:
 			bg()
 		}
@@ -548,29 +658,62 @@ func genDkvRanged(r *lib.Rng, n int) []string {
 	return ops
 }
 
-func genDkvOps(r *lib.Rng, n int, parkReads bool) []string {
+// genDkvOps: n generated steps over the key pool (plus a few random keys). readAll: every background step and
+// every `resume` is followed by the full observation of the pool keys and of the random keys written so far.
+func genDkvOps(r *lib.Rng, n int, parkReads, readAll bool) []string {
 	if r.Chance(2, 5) {
-		return genDkvRanged(r, n)
+		return genDkvRanged(r, n, readAll)
 	}
 	var ops []string
-	for len(ops) < n {
+	uni := slices.Clone(c07Pool)
+	wkey := func() []byte { // the key of a write joins the universe
+		k := c07Key(r)
+		if readAll && !slices.ContainsFunc(uni, func(u []byte) bool { return slices.Equal(u, k) }) {
+			uni = append(uni, k)
+		}
+		return k
+	}
+	steps := 0
+	add := func(op string, observe bool) {
+		ops = append(ops, op)
+		steps++
+		if readAll && observe {
+			ops = c07ReadAll(r, ops, uni)
+		}
+	}
+	for steps < n {
 		switch x := r.Intn(100); {
 		case x < 40:
-			ops = append(ops, fmt.Sprintf("put %s %s", lib.Hex(c07Key(r)), lib.Hex(c07Val(r))))
+			k := wkey()
+			add(fmt.Sprintf("put %s %s", lib.Hex(k), lib.Hex(c07Val(r))), false)
 		case x < 52:
-			ops = append(ops, "del "+lib.Hex(c07Key(r)))
-		case x < 66:
-			ops = append(ops, "get "+lib.Hex(c07Key(r)))
-		case x < 74:
+			add("del "+lib.Hex(wkey()), false)
+		case x < 64:
+			add("get "+lib.Hex(c07Key(r)), false)
+		case x < 71:
 			p := c07Key(r)
 			if r.Chance(1, 3) {
 				p = nil
 			}
-			ops = append(ops, "scan "+lib.Hex(p))
-		case x < 84:
-			ops = append(ops, "bg f")
+			add("scan "+lib.Hex(p), false)
+		case x < 81:
+			add("bg f", true)
+		case x < 92:
+			add("bg c", true)
 		case x < 95:
-			ops = append(ops, "bg c")
+			if parkReads {
+				// iterator obtained, background steps, then consumed: foreground operations are refused while the
+				// iterator is held (reader-busy), so no observation inside; it follows the `scanrun`
+				p := c07Key(r)
+				if r.Chance(1, 3) {
+					p = nil
+				}
+				add("scanget "+lib.Hex(p), false)
+				for i := r.Intn(5); i > 0; i-- {
+					add(lib.Pick(r, []string{"bg f", "bg c"}), false)
+				}
+				add("scanrun", true)
+			}
 		default:
 			if parkReads {
 				if r.Chance(1, 3) {
@@ -578,20 +721,21 @@ func genDkvOps(r *lib.Rng, n int, parkReads bool) []string {
 					if r.Chance(1, 3) {
 						p = nil
 					}
-					ops = append(ops, "scanpark "+lib.Hex(p))
+					add("scanpark "+lib.Hex(p), false)
 				} else {
-					ops = append(ops, "getpark "+lib.Hex(c07Key(r)))
+					add("getpark "+lib.Hex(c07Key(r)), false)
 				}
 				for i := r.Intn(4); i > 0; i-- {
-					ops = append(ops, lib.Pick(r, []string{"bg f", "bg c"}))
+					// inside the parked window foreground reads are refused (reader-busy): no observation here
+					add(lib.Pick(r, []string{"bg f", "bg c"}), false)
 				}
-				ops = append(ops, "resume")
+				add("resume", true)
 			}
 		}
 	}
 	// final full observation
 	ops = append(ops, "scan -")
-	for _, k := range c07Pool {
+	for _, k := range uni {
 		ops = append(ops, "get "+lib.Hex(k))
 	}
 	return ops
@@ -616,39 +760,353 @@ func c07Fixed() []lib.Case {
 		// D5: flush commit between the two phases of a read
 		{Header: "M C07 mem=200 l0=100", Ops: []string{"put " + k + " 01", "put " + z + " " + big, "bg f", "getpark " + k, "bg f", "resume", "get " + k}, Tags: []string{"regress-D5"}},
 		{Header: "M C07 mem=200 l0=100", Ops: []string{"put " + k + " 01", "put " + z + " " + big, "bg f", "scanpark " + k, "bg f", "resume", "scan " + k}, Tags: []string{"regress-D5"}},
+		// an iterator is obtained, the flush of the memtable that holds the key commits, then the iterator is consumed:
+		// it must still yield the key (both snapshots belong to the call, not to the first pull)
+		{Header: "M C07 mem=200 l0=100", Ops: []string{"put " + k + " 01", "put " + z + " " + big, "scanget " + k, "bg f", "bg f", "scanrun", "scan " + k}, Tags: []string{"window-iter-held"}},
 	}
 }
 
-func dkvNontrivial(c lib.Case, out []string) bool {
-	// the trace held data in several containers: at least one flush commit or a compaction happened
-	for _, o := range out {
-		if strings.HasPrefix(o, "flushcommit") || strings.HasPrefix(o, "compact L") {
+// ---- bounded-exhaustive sweep for C07 ----
+//
+// All schedules over a small alphabet on two keys up to a fixed depth, each step followed by the full observation
+// (`scan -`, `get k1`, `get k2`). The memtable holds both keys with small values (2 x 19 bytes <= 60) and is
+// rotated by the "big" put (17+1+48 > 60), so a flush is possible after one step; l0=1 lets the compactor act on a
+// single level-0 table.
+//
+// Alphabet: P1 `put k1 v`, P2 `put k2 v`, D1 `del k1`, BIG `put k2 <48 bytes>` (rotates), F `bg f` (one step of the
+// flush task: begin, then commit), C `bg c` (one step of the compaction task), G `getpark k1`, S `scanpark -`,
+// H `scanget -` (iterator obtained, consumed later), R `resume` / `scanrun` (closes the window G/S/H opened). Values
+// are a function of the step index.
+//
+// The enumeration is purely generator-side. To leave out schedules that cannot differ from a shorter one, the
+// generator PREDICTS the state of the queues and memtables (it never calls the code under test): a background step
+// is only taken when a task is predicted to be queued, a `getpark` only when the key is predicted to be in no
+// memtable (otherwise the real call returns from its first phase: a plain get, which every observation contains),
+// inside a window (read parked, or iterator held) only background steps and (after at least one of them) the closing
+// `resume`/`scanrun` are taken — the runner and the driver refuse foreground operations there. A wrong prediction (for instance under a
+// changed rotation rule) costs nothing: the runner answers `none`/`reader-busy`/`no-reader` and the driver agrees.
+// Only schedules with at least one predicted flush commit are kept (the others never leave the memtables).
+
+const c07SweepHeader = "M C07 mem=60 target=96 l0=1 amp=50 smallest=1"
+
+var c07SwK = [2]string{"61", "62"}
+
+type c07SwSt struct {
+	active     uint8   // bit i: key i is in the active memtable
+	sealed     []uint8 // sealed memtables, oldest first
+	flushing   int     // -1: no flush task between begin and commit; else the number of sealed memtables it took
+	flushQ     int     // flush tasks queued and not finished
+	compactQ   int     // compaction tasks queued and not finished
+	compPhase  int     // 0: the next `bg c` is a begin, 1: it is the commit
+	window     int     // 0: none; swParked: a read is parked between its phases; swHeld: an iterator is held unconsumed
+	bgInWindow bool
+	commits    int // predicted flush commits
+}
+
+func (s c07SwSt) clone() c07SwSt {
+	s.sealed = append([]uint8(nil), s.sealed...)
+	return s
+}
+
+func (s c07SwSt) inMem(bit uint8) bool {
+	if s.active&bit != 0 {
+		return true
+	}
+	for _, m := range s.sealed {
+		if m&bit != 0 {
 			return true
 		}
 	}
 	return false
 }
 
+const (
+	swParked = 1
+	swHeld   = 2
+)
+
+const (
+	swP1 = iota
+	swP2
+	swD1
+	swBIG
+	swF
+	swC
+	swG
+	swS
+	swH
+	swR
+	swLetters
+)
+
+// enabled: does the letter make a schedule that is not predicted to be equivalent to a shorter/other one?
+func (s c07SwSt) enabled(l, remaining int) bool {
+	bgReady := s.flushQ > 0 || s.compactQ > 0
+	if s.window != 0 {
+		switch l {
+		case swF:
+			return s.flushQ > 0
+		case swC:
+			return s.compactQ > 0
+		case swR:
+			return s.bgInWindow
+		}
+		return false
+	}
+	switch l {
+	case swP1, swP2, swD1:
+		return true
+	case swBIG:
+		return s.flushQ < 4
+	case swF:
+		return s.flushQ > 0
+	case swC:
+		return s.compactQ > 0
+	case swG:
+		return bgReady && remaining >= 2 && !s.inMem(1)
+	case swS, swH:
+		return bgReady && remaining >= 2
+	}
+	return false
+}
+
+// apply returns the op line of the letter at step i and the predicted next state.
+func (s c07SwSt) apply(l, i int) (string, c07SwSt) {
+	n := s.clone()
+	small := lib.Hex([]byte{byte(0x11 + i)})
+	switch l {
+	case swP1:
+		n.active |= 1
+		return "put " + c07SwK[0] + " " + small, n
+	case swP2:
+		n.active |= 2
+		return "put " + c07SwK[1] + " " + small, n
+	case swD1:
+		n.active |= 1
+		return "del " + c07SwK[0], n
+	case swBIG:
+		n.active |= 2
+		n.sealed = append(n.sealed, n.active)
+		n.active = 0
+		n.flushQ++
+		return "put " + c07SwK[1] + " " + strings.Repeat(lib.Hex([]byte{byte(0x81 + i)}), 48), n
+	case swF:
+		if n.flushing < 0 {
+			n.flushing = len(n.sealed)
+		} else {
+			n.sealed = n.sealed[min(n.flushing, len(n.sealed)):]
+			n.flushing = -1
+			n.flushQ--
+			n.compactQ++
+			n.commits++
+		}
+		n.bgInWindow = n.window != 0
+		return "bg f", n
+	case swC:
+		if n.compPhase == 0 {
+			n.compPhase = 1
+		} else {
+			n.compPhase = 0
+			n.compactQ--
+		}
+		n.bgInWindow = n.window != 0
+		return "bg c", n
+	case swG:
+		n.window, n.bgInWindow = swParked, false
+		return "getpark " + c07SwK[0], n
+	case swS:
+		n.window, n.bgInWindow = swParked, false
+		return "scanpark -", n
+	case swH:
+		n.window, n.bgInWindow = swHeld, false
+		return "scanget -", n
+	default: // swR: closes the open window
+		op := c07SwClose(s.window)
+		n.window, n.bgInWindow = 0, false
+		return op, n
+	}
+}
+
+func c07SwClose(window int) string {
+	if window == swHeld {
+		return "scanrun"
+	}
+	return "resume"
+}
+
+func c07SwObserve(ops []string) []string {
+	return append(ops, "scan -", "get "+c07SwK[0], "get "+c07SwK[1])
+}
+
+// c07SweepFrom enumerates all schedules of exactly `depth` letters after the given prefix (itself a schedule of
+// letters, observed step by step as well). needCommit: keep only schedules with a predicted flush commit.
+func c07SweepFrom(prefix []int, depth int, needCommit bool, tag string) []lib.Case {
+	st := c07SwSt{flushing: -1}
+	var ops []string
+	for i, l := range prefix {
+		var op string
+		op, st = st.apply(l, i)
+		ops = append(ops, op)
+		if st.window == 0 {
+			ops = c07SwObserve(ops)
+		}
+	}
+	var out []lib.Case
+	var rec func(st c07SwSt, ops []string, i int)
+	rec = func(st c07SwSt, ops []string, i int) {
+		if i == len(prefix)+depth {
+			if needCommit && st.commits == 0 {
+				return
+			}
+			fin := append([]string(nil), ops...)
+			if st.window != 0 {
+				fin = c07SwObserve(append(fin, c07SwClose(st.window)))
+			}
+			out = append(out, lib.Case{Header: c07SweepHeader, Ops: fin, Tags: []string{tag}})
+			return
+		}
+		for l := 0; l < swLetters; l++ {
+			if !st.enabled(l, len(prefix)+depth-i) {
+				continue
+			}
+			op, nx := st.apply(l, i)
+			nops := append(ops[:len(ops):len(ops)], op)
+			if nx.window == 0 {
+				nops = c07SwObserve(nops)
+			}
+			rec(nx, nops, i+1)
+		}
+	}
+	rec(st, ops, len(prefix))
+	return out
+}
+
+var c07SweepOnce sync.Once
+var c07SweepAll []lib.Case
+
+const c07SweepQuick = 40
+
+// c07Sweep: the sweep cases of the tier (thorough: all of them; quick: a stride sample of c07SweepQuick cases).
+func c07Sweep(tier string) []lib.Case {
+	c07SweepOnce.Do(func() {
+		// from the empty database
+		c07SweepAll = append(c07SweepAll, c07SweepFrom(nil, 7, true, "sweep-empty")...)
+		// both keys in one level-0 table, compaction queued
+		c07SweepAll = append(c07SweepAll, c07SweepFrom([]int{swP1, swBIG, swF, swF}, 5, false, "sweep-l0")...)
+		// after the compactor's first two steps on that table
+		c07SweepAll = append(c07SweepAll, c07SweepFrom([]int{swP1, swBIG, swF, swF, swC, swC}, 5, false, "sweep-l1")...)
+	})
+	if tier == "thorough" {
+		return c07SweepAll
+	}
+	n := len(c07SweepAll)
+	if n <= c07SweepQuick {
+		return c07SweepAll
+	}
+	out := make([]lib.Case, 0, c07SweepQuick)
+	for j := 0; j < c07SweepQuick; j++ {
+		out = append(out, c07SweepAll[j*n/c07SweepQuick])
+	}
+	return out
+}
+
+// dkvNontrivial: the trace held data in several containers AND was read there: at least one flush commit or
+// compaction happened, and after it a get/scan was answered that covers a key written before that commit
+// (a `get`/`getpark` of such a key, or a `scan`/`scanpark` whose prefix such a key has).
+func dkvNontrivial(c lib.Case, out []string) bool {
+	written := map[string]bool{} // hex keys written so far
+	var old []string             // hex keys written before some flush commit / compaction
+	isOld := map[string]bool{}
+	for i, op := range c.Ops {
+		if i >= len(out) {
+			break
+		}
+		f := strings.Fields(op)
+		if len(f) == 0 {
+			continue
+		}
+		o := out[i]
+		switch f[0] {
+		case "put", "del":
+			if len(f) > 1 && strings.HasPrefix(o, "rot=") {
+				written[f[1]] = true
+			}
+		case "bg":
+			if strings.HasPrefix(o, "flushcommit") || strings.HasPrefix(o, "compact L") {
+				for k := range written {
+					if !isOld[k] {
+						isOld[k] = true
+						old = append(old, k)
+					}
+				}
+			}
+		case "get", "getpark":
+			if len(f) > 1 && isOld[f[1]] && o != "reader-busy" && o != "timeout" {
+				return true
+			}
+		case "scan", "scanpark", "scanget":
+			if len(f) > 1 && o != "reader-busy" && o != "timeout" {
+				p := f[1]
+				if p == "-" {
+					p = ""
+				}
+				for _, k := range old {
+					if k != "-" && strings.HasPrefix(k, p) {
+						return true
+					}
+					if k == "-" && p == "" {
+						return true
+					}
+				}
+			}
+		}
+	}
+	return false
+}
+
+// c07CaseShape decides from the case's Rng whether the case is a readall case and how many steps it has.
+func c07CaseShape(r *lib.Rng, tier string) (n int, readAll bool) {
+	readAll = r.Chance(1, 3)
+	switch {
+	case readAll && tier == "thorough":
+		n = r.Range(10, 90)
+	case readAll:
+		n = r.Range(10, 40) // every background step costs a full observation: fewer steps, same number of lines
+	case tier == "thorough":
+		n = r.Range(20, 300)
+	default:
+		n = r.Range(20, 120)
+	}
+	return
+}
+
 func propC07() *lib.Prop {
 	return &lib.Prop{
-		ID:       "C07",
-		Corr:     "Model/Lsm.lean transition system ↔ real dkv.DB (hook-scheduled flush/compaction commits, two-phase reads)",
-		Rule:     "trace validation: generated schedules of put/del/get/scan/background steps on a real dkv.DB with tiny memtables; every read is compared with the model and with the map spec; non-trivial = at least one flush commit or compaction happened in the trace",
+		ID:   "C07",
+		Corr: "Model/Lsm.lean transition system ↔ real dkv.DB (hook-scheduled flush/compaction commits, two-phase reads)",
+		Rule: "trace validation: generated schedules of put/del/get/scan/background steps on a real dkv.DB with tiny memtables; every read is compared with the model and with the map spec; " +
+			"in one case of three every background step and every resumed two-phase read is followed by a scan of everything and a get of every key of the case's key universe; " +
+			"plus a bounded-exhaustive sweep (all schedules of put/del/rotating put/flush step/compaction step/parked get/parked scan over 2 keys up to a fixed depth, full observation after every step; a stride sample in the quick tier); " +
+			"non-trivial = a flush commit or compaction happened and a key written before it was read (get/scan) afterwards",
 		FeedImpl:        true,
 		SpecIndependent: true,
 		NumCases: func(tier string) int {
 			if tier == "thorough" {
-				return 4000
+				return len(c07Sweep(tier)) + 4000
 			}
-			return 400
+			return len(c07Sweep(tier)) + 480
 		},
 		Fixed: func(string) []lib.Case { return c07Fixed() },
 		Gen: func(r *lib.Rng, tier string, i int) lib.Case {
-			n := r.Range(20, 120)
-			if tier == "thorough" {
-				n = r.Range(20, 300)
+			if sw := c07Sweep(tier); i < len(sw) {
+				return sw[i] // deterministic: the i-th enumerated schedule (the Rng is not used)
 			}
-			return lib.Case{Header: c07Header(r, "C07"), Ops: genDkvOps(r, n, true)}
+			n, readAll := c07CaseShape(r, tier)
+			c := lib.Case{Header: c07Header(r, "C07"), Ops: genDkvOps(r, n, true, readAll)}
+			if readAll {
+				c.Tags = []string{"readall"}
+			}
+			return c
 		},
 		Impl:       runDkvTrace,
 		Nontrivial: dkvNontrivial,
